@@ -1152,6 +1152,19 @@ fn c20_body(read_limit: usize, ending: Ending, abandon: bool) -> vsched::Body {
                 bad.push(format!("the real actor did not handle the abandoned and the following call: {l:?}"));
             }
         }
+        // every remote reference of P answers (both nodes live in this process, each session owns one; pg
+        // only keeps one of the two because their remote ids coincide)
+        for n in [&t.a, &t.b] {
+            for (_, _, sess) in sessions(n).await {
+                for px in sess.get_children().into_iter().filter(|c| !c.get_id().is_local() && c.get_id().pid() == p.get_id().pid()) {
+                    let r: ActorRef<Wire> = px.clone().into();
+                    let ans = r.call(|reply| Wire::Ask(401, reply), Some(Duration::from_millis(100))).await;
+                    if !matches!(ans, Ok(ractor::rpc::CallResult::Success(1401))) {
+                        bad.push(format!("remote reference {} of the advertised actor (node {}) does not reach it: {:?}", px.get_id(), n.name, ans.as_ref().map(|c| format!("{c:?}")).map_err(|_| "send error")));
+                    }
+                }
+            }
+        }
         // group membership mirrors the original
         ractor::pg::leave("pub".into(), vec![p.get_cell()]);
         vsched::quiesce_time();
